@@ -40,3 +40,11 @@ PROPS['C12'] = dict(
     technique='Coq proofs (case analysis of the state tracker, fold invariants on the id checks, vm_compute witness) + differential run of import/write scripts against the real stack + rejected-without-effect monitor',
     level_text='Unbounded theorems about the sequential model of the state tracker and Import; one refutation (atomic bulk bypass) reproduced on the real code. Interleavings are not covered here.',
     level_note=IMP_NOTE)
+
+# C14 on the import path: streams that reuse a non-empty reference (the export followed by its copy with ids shifted above it in ONE stream; the shifted copy on top of
+# the imported export; on top of an atomic bulk holding the reference). Monitor: the import stops at that log with the reference-conflict error (errors.Is against
+# ledgerstore / ledgercontroller ErrTransactionReferenceConflict), the transaction is not stored, no two stored transactions share a reference.
+PROPS['C14']['ties'].append(dict(name='TIE-D importx refs', vh='importx', model='importx', n=dict(quick=150, thorough=4000), args=dict(all=['-profile', 'refs']),
+                                 kinds=['C14'], case_head='importx', timeout=dict(quick=600, thorough=6000)))
+PROPS['C14']['explanation'] += (' Import path (the quantifier includes imports): the importx tie presents Import with NEW_TRANSACTION logs reusing a stored reference; model Ledger/Import.v:imp_commit '
+                                '(IEReference, no effect) = real stack, and the monitor requires the reference-conflict error kind.')
